@@ -1,3 +1,99 @@
 # -*- coding: utf-8 -*-
-"""Syntactic lemmas over the whole package (frame scans, call-graph lemmas), re-derived from the source each run."""
+"""Syntactic lemmas over the whole package (frame scans, constant lemmas, call-graph lemmas), re-derived from the
+current source on every run.  Each returns a list of obligation-like dicts {name, kind:'scan', status, detail, ...}."""
 import ast
+
+GRAPH = {
+    None: {'CREATED'},
+    'CREATED': {'RUNNING', 'KILLED', 'EXCEPTED'},
+    'RUNNING': {'RUNNING', 'WAITING', 'FINISHED', 'KILLED', 'EXCEPTED'},
+    'WAITING': {'RUNNING', 'WAITING', 'FINISHED', 'KILLED', 'EXCEPTED'},
+    'FINISHED': set(), 'EXCEPTED': set(), 'KILLED': set(),
+}
+TERMINAL = {'FINISHED', 'EXCEPTED', 'KILLED'}
+
+
+def ob(name, ok, detail, cx=None):
+    d = {'name': name, 'kind': 'scan', 'status': 'proved' if ok else 'refuted', 'detail': detail, 'backend': 'ast-scan', 'seconds': 0.0,
+         'reason': '', 'expect_refuted': False, 'replay': None, 'want_sat': False}
+    if cx is not None:
+        d['counterexample'] = {'inputs': cx}
+    return d
+
+
+def _label_of(expr):
+    if isinstance(expr, ast.Attribute) and isinstance(expr.value, ast.Name) and expr.value.id == 'ProcessState':
+        return expr.attr
+    return None
+
+
+def allowed_subset_graph(index, prop):
+    """C01 constant lemma: for every process state class, ALLOWED is a subset of the documented lifecycle graph at its
+    LABEL, and is_terminal() (ALLOWED empty) holds exactly for FINISHED / EXCEPTED / KILLED."""
+    res = []
+    base = index.classes['plumpy.process_states.State']
+    seen_labels = set()
+    for ci in index.subclasses(base):
+        owner, lab = ci.lookup_class_attr('LABEL')
+        label = _label_of(lab) if lab is not None else None
+        if label is None:
+            continue  # the abstract State
+        seen_labels.add(label)
+        owner, allowed = ci.lookup_class_attr('ALLOWED')
+        names = set()
+        okparse = True
+        if isinstance(allowed, ast.Set):
+            for e in allowed.elts:
+                n = _label_of(e)
+                if n is None:
+                    okparse = False
+                names.add(n)
+        elif isinstance(allowed, ast.Call) and ast.unparse(allowed) == 'set()':
+            pass
+        else:
+            okparse = False
+        good = okparse and names <= GRAPH.get(label, set())
+        res.append(ob(f'scan::ALLOWED_within_graph[{ci.qualname}]', good,
+                      f'{ci.name}.ALLOWED = {sorted(x or "?" for x in names)} must be within the documented successors of {label}: {sorted(GRAPH.get(label, []))}',
+                      {'class': ci.qualname, 'label': label, 'extra': sorted(names - GRAPH.get(label, set()), key=str)}))
+        res.append(ob(f'scan::terminal_iff_no_successor[{ci.qualname}]', (not names) == (label in TERMINAL),
+                      f'{ci.name}: ALLOWED empty ({not names}) iff the label {label} is terminal ({label in TERMINAL})'))
+    res.append(ob('scan::all_labels_have_a_state_class', seen_labels == set(GRAPH) - {None},
+                  f'state classes define labels {sorted(seen_labels)}'))
+    f = index.funcs.get('plumpy.base.state_machine.State.is_terminal')
+    src = ast.unparse(f.node.body[-1]) if f is not None else ''
+    res.append(ob('scan::is_terminal_is_not_ALLOWED', src == 'return not cls.ALLOWED', f'State.is_terminal body: {src}'))
+    return res
+
+
+def state_written_only_by_the_machine(index, prop):
+    """C01 frame lemma: within the package, `<obj>._state = ...` on a state machine is written only in
+    StateMachine.__init__, StateMachine._enter_next_state and Process.load_instance_state; _enter_next_state is called
+    only from transition_to; '_state' is not an auto-persisted member of Process."""
+    allowed = {'plumpy.base.state_machine.StateMachine.__init__', 'plumpy.base.state_machine.StateMachine._enter_next_state',
+               'plumpy.processes.Process.load_instance_state'}
+    res = []
+    writers = set()
+    callers = set()
+    for q, fi in index.funcs.items():
+        for n in ast.walk(fi.node):
+            if isinstance(n, ast.Attribute) and n.attr == '_state' and isinstance(n.ctx, (ast.Store, ast.Del)):
+                # futures also have a `_state`; only count classes that are state machines
+                if fi.cls is not None and any(c.qualname == 'plumpy.base.state_machine.StateMachine' for c in fi.cls.mro):
+                    writers.add(q)
+            if isinstance(n, ast.Call) and isinstance(n.func, ast.Attribute) and n.func.attr == '_enter_next_state':
+                callers.add(q)
+            if isinstance(n, ast.Call) and isinstance(n.func, ast.Name) and n.func.id == 'setattr' and len(n.args) >= 2 \
+                    and isinstance(n.args[1], ast.Constant) and n.args[1].value == '_state':
+                writers.add(q)
+    res.append(ob('scan::_state_written_only_by_the_machine', writers <= allowed,
+                  f'functions assigning `._state` of a state machine: {sorted(writers)}', {'unexpected_writers': sorted(writers - allowed)}))
+    res.append(ob('scan::_enter_next_state_called_only_from_transition_to', callers <= {'plumpy.base.state_machine.StateMachine.transition_to'},
+                  f'callers of _enter_next_state: {sorted(callers)}'))
+    proc = index.classes['plumpy.processes.Process']
+    persisted = set()
+    for d in proc.decorators:
+        if isinstance(d, ast.Call) and ast.unparse(d.func).endswith('auto_persist'):
+            persisted |= {a.value for a in d.args if isinstance(a, ast.Constant)}
+    res.append(ob('scan::_state_not_auto_persisted', '_state' not in persisted, f'Process auto-persists {sorted(persisted)}'))
+    return res
